@@ -122,6 +122,29 @@ theorem Seg.len {code : Code} {r : Ir} {a b : Nat} (h : Seg code r a b) : b = a 
 theorem Seg.le {code : Code} {r : Ir} {a b : Nat} (h : Seg code r a b) : a ≤ b := by
   have := h.len; omega
 
+/-! ### what a code shape matches, in units of matched bytes, over a relation `L` for the single instructions
+   (`L r q t`: the instruction of `r` takes the run from `q` matched bytes to `t` matched bytes — forwards or backwards,
+   one- or two-byte characters: Lemmas/ReDir.lean) -/
+inductive Iter (R : Nat → Nat → Prop) : Nat → Nat → Nat → Prop
+  | nil {x} : Iter R 0 x x
+  | cons {k x y z} : R x y → Iter R k y z → Iter R (k + 1) x z
+
+inductive IrM (L : Re → Nat → Nat → Prop) : Ir → Nat → Nat → Prop
+  | leaf {r q t} : L r q t → IrM L (.leaf r) q t
+  | jump {lo hi g j q t} : lo ≤ j → j ≤ hi → Iter (L .any) j q t → IrM L (.jump lo hi g) q t
+  | eps {q} : IrM L .eps q q
+  | cat {x y q t u} : IrM L x q t → IrM L y t u → IrM L (.cat x y) q u
+  | altL {x y q t} : IrM L x q t → IrM L (.alt x y) q t
+  | altR {x y q t} : IrM L y q t → IrM L (.alt x y) q t
+  | starNil {x g q} : IrM L (.star x g) q q
+  | starStep {x g q t u} : IrM L x q t → IrM L (.star x g) t u → IrM L (.star x g) q u
+  | plusOne {x g q t} : IrM L x q t → IrM L (.plus x g) q t
+  | plusStep {x g q t u} : IrM L x q t → IrM L (.plus x g) t u → IrM L (.plus x g) q u
+  | optSkip {x g q} : IrM L (.opt x g) q q
+  | optTake {x g q t} : IrM L x q t → IrM L (.opt x g) q t
+  | loopStop {x hi g q} : IrM L (.loop x 0 hi g) q q
+  | loopStep {x lo hi g q t u} : 0 < hi → IrM L x q t → IrM L (.loop x (lo - 1) (hi - 1) g) t u → IrM L (.loop x lo hi g) q u
+
 /-! ### the fiber stack: the lowest `n` entries (head = top of the stack) -/
 def low (s : List Nat) (n : Nat) : List Nat := s.drop (s.length - n)
 
@@ -164,69 +187,78 @@ theorem cntAt_top {s : List Nat} {B : Nat} (h : s.length = B + 1) : cntAt s B = 
     character, a fiber that has read k characters (`post`, or k = 0 on arrival) may read j more with lo ≤ k + j ≤ hi.
     Inside a loop whose counter (completed iterations) is c: finish this iteration, then between lo-(c+1) and hi-(c+1)
     further ones. -/
-def lang (fl : Flags) (buf : Bytes) : Ir → Nat → Nat → Lang → Nat → Int → List Nat → Mode → Lang
-  | .leaf r, a, _, K, ip, _, _, _ => if ip = a then fun q q' => ∃ t, Re.Matches fl buf r q t ∧ K t q' else K
+def lang (L : Re → Nat → Nat → Prop) : Ir → Nat → Nat → Lang → Nat → Int → List Nat → Mode → Lang
+  | .leaf r, a, _, K, ip, _, _, _ => if ip = a then fun q q' => ∃ t, L r q t ∧ K t q' else K
   | .eps, _, _, K, _, _, _, _ => K
   | .jump lo hi _, a, _, K, ip, rc, _, m =>
       if ip = a then
         match m with
-        | .wait => fun q q' => ∃ j t, 1 ≤ j ∧ lo ≤ rc0 rc - 1 + j ∧ rc0 rc - 1 + j ≤ hi ∧ Path (step fl buf (testAny fl)) j q t ∧ K t q'
-        | _ => fun q q' => ∃ j t, lo ≤ rc0 rc + j ∧ rc0 rc + j ≤ hi ∧ Path (step fl buf (testAny fl)) j q t ∧ K t q'
+        | .wait => fun q q' => ∃ j t, 1 ≤ j ∧ lo ≤ rc0 rc - 1 + j ∧ rc0 rc - 1 + j ≤ hi ∧ Iter (L .any) j q t ∧ K t q'
+        | _ => fun q q' => ∃ j t, lo ≤ rc0 rc + j ∧ rc0 rc + j ≤ hi ∧ Iter (L .any) j q t ∧ K t q'
       else K
   | .cat x y, a, B, K, ip, rc, s, m =>
       let mid := a + clen x
-      if ip < mid then lang fl buf x a B (lang fl buf y mid B K mid (-1) (low s B) .run) ip rc s m else lang fl buf y mid B K ip rc s m
+      if ip < mid then lang L x a B (lang L y mid B K mid (-1) (low s B) .run) ip rc s m else lang L y mid B K ip rc s m
   | .alt x y, a, B, K, ip, rc, s, m =>
       let mid := a + 4 + clen x
-      if ip = a then fun q q' => lang fl buf x (a + 4) B K (a + 4) (-1) s .run q q' ∨ lang fl buf y (mid + 3) B K (mid + 3) (-1) s .run q q'
-      else if ip < mid then lang fl buf x (a + 4) B K ip rc s m
+      if ip = a then fun q q' => lang L x (a + 4) B K (a + 4) (-1) s .run q q' ∨ lang L y (mid + 3) B K (mid + 3) (-1) s .run q q'
+      else if ip < mid then lang L x (a + 4) B K ip rc s m
       else if ip = mid then K
-      else lang fl buf y (mid + 3) B K ip rc s m
+      else lang L y (mid + 3) B K ip rc s m
   | .star x g, a, B, K, ip, rc, s, m =>
       let mid := a + 4 + clen x
-      if ip = a then fun q q' => ∃ t, Re.Matches fl buf (.star x.re g) q t ∧ K t q'
-      else if ip < mid then lang fl buf x (a + 4) B (fun q q' => ∃ t, Re.Matches fl buf (.star x.re g) q t ∧ K t q') ip rc s m
-      else if ip = mid then fun q q' => ∃ t, Re.Matches fl buf (.star x.re g) q t ∧ K t q'
+      if ip = a then fun q q' => ∃ t, IrM L (.star x g) q t ∧ K t q'
+      else if ip < mid then lang L x (a + 4) B (fun q q' => ∃ t, IrM L (.star x g) q t ∧ K t q') ip rc s m
+      else if ip = mid then fun q q' => ∃ t, IrM L (.star x g) q t ∧ K t q'
       else K
   | .plus x g, a, B, K, ip, rc, s, m =>
       let mid := a + clen x
       if clen x = 0 then K
-      else if ip < mid then lang fl buf x a B (fun q q' => K q q' ∨ ∃ t, Re.Matches fl buf (.plus x.re g) q t ∧ K t q') ip rc s m
-      else if ip = mid then fun q q' => K q q' ∨ ∃ t, Re.Matches fl buf (.plus x.re g) q t ∧ K t q'
+      else if ip < mid then lang L x a B (fun q q' => K q q' ∨ ∃ t, IrM L (.plus x g) q t ∧ K t q') ip rc s m
+      else if ip = mid then fun q q' => K q q' ∨ ∃ t, IrM L (.plus x g) q t ∧ K t q'
       else K
   | .opt x g, a, B, K, ip, rc, s, m =>
-      if ip = a then fun q q' => ∃ t, Re.Matches fl buf (.range x.re 0 1 g) q t ∧ K t q'
-      else lang fl buf x (a + 4) B K ip rc s m
-  | .loop x lo hi _, a, B, K, ip, rc, s, m =>
-      if ip = a then fun q q' => ∃ t, Cnt fl buf x.re lo hi q t ∧ K t q'
+      if ip = a then fun q q' => ∃ t, IrM L (.opt x g) q t ∧ K t q'
+      else lang L x (a + 4) B K ip rc s m
+  | .loop x lo hi g, a, B, K, ip, rc, s, m =>
+      if ip = a then fun q q' => ∃ t, IrM L (.loop x lo hi g) q t ∧ K t q'
       else
         let c := cntAt s B
         if ip < a + 9 + clen x then
-          lang fl buf x (a + 9) (B + 1) (fun q q' => ∃ t, Cnt fl buf x.re (lo - (c + 1)) (hi - (c + 1)) q t ∧ K t q') ip rc s m
-        else if ip = a + 9 + clen x then fun q q' => ∃ t, Cnt fl buf x.re (lo - (c + 1)) (hi - (c + 1)) q t ∧ K t q'
+          lang L x (a + 9) (B + 1) (fun q q' => ∃ t, IrM L (.loop x (lo - (c + 1)) (hi - (c + 1)) g) q t ∧ K t q') ip rc s m
+        else if ip = a + 9 + clen x then fun q q' => ∃ t, IrM L (.loop x (lo - (c + 1)) (hi - (c + 1)) g) q t ∧ K t q'
         else K
 
 /-! ### counts of iterations -/
 section
-variable {fl : Flags} {buf : Bytes}
+variable {L : Re → Nat → Nat → Prop}
 
-theorem cnt_nil (a : Re) (h q : Nat) : Cnt fl buf a 0 h q q := ⟨0, Nat.le_refl _, Nat.zero_le _, .nil⟩
+theorem loop_mono {x : Ir} {g : Bool} {r : Ir} {p q : Nat} (h : IrM L r p q) : ∀ {l u l' u' : Nat}, r = .loop x l u g → l' ≤ l → u ≤ u' →
+    IrM L (.loop x l' u' g) p q := by
+  induction h with
+  | loopStop =>
+    intro l u l' u' e h1 h2
+    cases e
+    have : l' = 0 := by omega
+    subst this; exact .loopStop
+  | loopStep hpos hx _ _ ih2 =>
+    intro l u l' u' e h1 h2
+    cases e
+    exact .loopStep (by omega) hx (ih2 rfl (by omega) (by omega))
+  | _ => intro l u l' u' e; cases e
 
-theorem cnt_step {a : Re} {l h l' h' q t u : Nat} (hm : Re.Matches fl buf a q t) (hc : Cnt fl buf a l h t u)
-    (h1 : l' ≤ l + 1) (h2 : h + 1 ≤ h') : Cnt fl buf a l' h' q u := by
-  obtain ⟨k, k1, k2, hp⟩ := hc
-  exact ⟨k + 1, by omega, by omega, .cons ((ends_iff_Matches fl buf a q t).2 hm) hp⟩
+theorem loop_nil (x : Ir) (u : Nat) (g : Bool) (q : Nat) : IrM L (.loop x 0 u g) q q := .loopStop
 
-theorem cnt_mono {a : Re} {l h l' h' p q : Nat} (hc : Cnt fl buf a l h p q) (h1 : l' ≤ l) (h2 : h ≤ h') : Cnt fl buf a l' h' p q := by
-  obtain ⟨k, k1, k2, hp⟩ := hc
-  exact ⟨k, by omega, by omega, hp⟩
+theorem loop_step {x : Ir} {g : Bool} {l u l' u' q t w : Nat} (hm : IrM L x q t) (hc : IrM L (.loop x l u g) t w)
+    (h1 : l' ≤ l + 1) (h2 : u + 1 ≤ u') : IrM L (.loop x l' u' g) q w :=
+  .loopStep (by omega) hm (loop_mono hc rfl (by omega) (by omega))
 
 /-- no code: the expression matches the empty sequence (everywhere) -/
-theorem seg_nil {code : Code} {r : Ir} {a b : Nat} (hs : Seg code r a b) (h0 : clen r = 0) (q : Nat) : Re.Matches fl buf r.re q q := by
+theorem seg_nil {code : Code} {r : Ir} {a b : Nat} (hs : Seg code r a b) (h0 : clen r = 0) (q : Nat) : IrM L r q q := by
   induction hs with
   | @leaf r a _ => have := leafLen_pos r; simp only [clen] at h0; omega
   | jump _ _ _ _ => simp [clen] at h0
-  | eps => exact .empty
+  | eps => exact .eps
   | star _ _ _ _ _ _ => simp only [clen] at h0; omega
   | @plus x a m g h1 hlt _ _ _ =>
     have := h1.len
@@ -243,20 +275,24 @@ theorem seg_nil {code : Code} {r : Ir} {a b : Nat} (hs : Seg code r a b) (h0 : c
   | alt _ _ _ _ _ _ _ _ => simp only [clen] at h0; omega
   | loop _ _ _ _ _ _ _ _ _ _ _ => simp only [clen] at h0; omega
 
-variable (fl buf)
+variable (L)
 
 /-- the entry language of a segment is the specification of its expression followed by the continuation -/
 theorem lang_entry {code : Code} {r : Ir} {a b : Nat} (hs : Seg code r a b) (B : Nat) (K : Lang) (s : List Nat) (q q' : Nat) :
-    lang fl buf r a B K a (-1) s .run q q' → ∃ t, Re.Matches fl buf r.re q t ∧ K t q' := by
+    lang L r a B K a (-1) s .run q q' → ∃ t, IrM L r q t ∧ K t q' := by
   induction hs generalizing B K s q q' with
-  | leaf _ => simp [lang, Ir.re]
-  | eps => intro h; simp only [lang] at h; exact ⟨q, .empty, h⟩
+  | leaf _ =>
+    intro h
+    simp only [lang, if_true] at h
+    obtain ⟨t, ht, hk⟩ := h
+    exact ⟨t, .leaf ht, hk⟩
+  | eps => intro h; simp only [lang] at h; exact ⟨q, .eps, h⟩
   | @jump a lo hi g _ _ _ _ =>
     intro h
     simp only [lang, if_true] at h
     obtain ⟨j, t, h1, h2, hp, hk⟩ := h
     simp only [rc0, if_true, Nat.zero_add] at h1 h2
-    exact ⟨t, rangeAny_of_path j lo hi q t h1 h2 hp, hk⟩
+    exact ⟨t, .jump h1 h2 hp, hk⟩
   | @star x a m g _ _ h1 _ _ ih =>
     intro h
     simp only [lang, if_true] at h
@@ -309,12 +345,11 @@ theorem lang_entry {code : Code} {r : Ir} {a b : Nat} (hs : Seg code r a b) (B :
   | @loop x a m lo hi g _ _ _ h1 _ _ _ _ _ _ ih =>
     intro h
     simp only [lang, if_true] at h
-    obtain ⟨t, ht, hk⟩ := h
-    exact ⟨t, (range_iff_cnt x.re lo hi g q t).2 ht, hk⟩
+    exact h
 
 /-- at the end address of a segment the language is the continuation -/
 theorem lang_end {code : Code} {r : Ir} {a b : Nat} (hs : Seg code r a b) (B : Nat) (K : Lang) (rc : Int) (s : List Nat) (md : Mode) :
-    lang fl buf r a B K b rc s md = K := by
+    lang L r a B K b rc s md = K := by
   induction hs generalizing B K with
   | @leaf r a _ =>
     have := leafLen_pos r
